@@ -95,7 +95,7 @@ def enc_bounds(b):
 
 def plc_line(case, mode="F", form="H"):
     kc = case.get("kc", [True, False])
-    op = "plcd" if case["via"] == "design" else "plc"
+    op = "plcd" if case["via"] in ("design", "manager") else "plc"
     return (f"{op} {mode} {form} {core.rs(case['bmin'])} {core.rs(case['bx'])} {core.rs(case['by'])} "
             f"{len(kc)} {' '.join('1' if k else '0' for k in kc)} {enc_bounds(case['prop'])} {enc_bounds(case['nogo'])}").replace("  ", " ")
 
@@ -136,7 +136,15 @@ def call_impl(case):
 
     bmin, bx, by, prop, nogo = case["bmin"], case["bx"], case["by"], case["prop"], case["nogo"]
     kc = case.get("kc")
-    if case["via"] == "design":
+    if case["via"] == "manager" and kc is None:
+        # the user-level route: the manager's setter, then set_design (nothing else is needed to build the candidates)
+        from ghedesigner.manager import GHEManager
+
+        m = GHEManager()
+        m.set_geometry_constraints_bi_rectangle_constrained(b_min=bmin, b_max_x=bx, b_max_y=by, property_boundary=prop, no_go_boundaries=nogo)
+        m.set_design(0.5, "BOREHOLE")
+        return m._design.coordinates_domain_nested, m._design.fieldDescriptors
+    if case["via"] in ("design", "manager"):      # (the manager has no keep_contour argument: such cases use the design class)
         gc = G.GeometricConstraintsBiRectangleConstrained(bmin, bx, by, prop, nogo)
         if kc is None:
             d = DS.DesignBiRectangleConstrained(*([None] * 8), gc, None, None)
@@ -808,6 +816,8 @@ def make_case(rng, size):
     if mode == "integer" and rng.random() < 0.5:   # Python ints, as a JSON file may give them
         prop = [[int(x), int(y)] for x, y in prop] if pform == "flat" else [[[int(x), int(y)] for x, y in p] for p in prop]
         mode = "pyint"
+    if via == "design" and rng.random() < 0.4:
+        via = "manager"          # same configuration through GHEManager's setter + set_design (flat and nested forms alike)
     case = {"bmin": bmin, "bx": bx, "by": by, "prop": prop, "nogo": nogo, "via": via,
             "meta": {"lot": "+".join(shapes), "outlines": len(props), "nogo": "+".join(nshapes) or "none", "nogo_form": form,
                      "prop_form": pform, "orient": "/".join(orients), "coords": mode, "aligned": aligned, "touch_axes": touch}}
